@@ -99,6 +99,12 @@ def standard(seed):
         top = [0.25 * lam * math.cos(e) * math.cos(a_), 0.25 * lam * math.cos(e) * math.sin(a_), 0.25 * lam * math.sin(e)]
         out.append(('sloper%g' % az, 'ground', [geom.wire([0, 0, 0], top, 10, r)], [dict(pulse=0, v=[1., 0.])]))
         out.append(('sloper%g-ud' % az, 'ground', [geom.wire(top, [0, 0, 0], 10, r)], [dict(pulse=9, v=[1., 0.])]))
+    # arrays of exactly vertical wires standing at different places (nothing about them is rotationally symmetric),
+    # fed with different phases
+    out.append(('varray-gnd', 'ground', [geom.wire([0, 0, 0], [0, 0, 0.24 * lam], 10, r), geom.wire([0.25 * lam, 0.1 * lam, 0], [0.25 * lam, 0.1 * lam, 0.24 * lam], 10, r)],
+                [dict(pulse=0, v=[1., 0.]), dict(pulse=10, v=[0., -1.])]))
+    out.append(('varray-free', 'free', [geom.wire([0, 0, -0.235 * lam], [0, 0, 0.235 * lam], 20, r), geom.wire([0.2 * lam, 0.15 * lam, 0.235 * lam], [0.2 * lam, 0.15 * lam, -0.235 * lam], 20, r)],
+                [dict(pulse=9, v=[1., 0.]), dict(pulse=28, v=[0.5, 0.5])]))
     return f, lam, out
 
 
